@@ -228,7 +228,7 @@ def config_spec(draw, optimizer, max_cycles=(1, 8), pop_mults=(1, 1, 1.5, 2, 3),
         spec["fitness_error"] = draw(st.one_of(st.none(), st.none(), st.just(0.0), _f(0.0, 1.0)))
         if draw(st.integers(0, 3)) == 0:
             spec["early_stopping"] = {"patience": draw(st.integers(1, 4)),
-                                      "min_delta": draw(st.one_of(st.sampled_from([1e-4, 0.01, 1.0]), _f(0.0, 2.0)))}
+                                      "min_delta": draw(st.one_of(st.sampled_from([0.0, 1e-4, 0.01, 1.0]), _f(0.0, 2.0)))}
         else:
             spec["early_stopping"] = None
     else:
